@@ -54,27 +54,37 @@ ListOrders5 ==
 LimOffs == {[limit |-> l, offset |-> o] : l \in {-1, 0, 1, 2, 5}, o \in {-1, 0, 1, 2, 5}}
 
 \* ------------------------------------------------------------------ C06
-ColsL == << [n |-> "id", ty |-> "i"], [n |-> "k", ty |-> "i"] >>
-ColsR == << [n |-> "k", ty |-> "i"], [n |-> "w", ty |-> "s"] >>
+\* three-column tables on both sides of the first join, a two-column and a one-column table after it
+\* (row widths 3+3+2 and 3+1: joined rows of every width class the engine builds)
+ColsL == << [n |-> "id", ty |-> "i"], [n |-> "k", ty |-> "i"], [n |-> "x", ty |-> "b"] >>
+ColsR == << [n |-> "k", ty |-> "i"], [n |-> "w", ty |-> "s"], [n |-> "y", ty |-> "i"] >>
+ColsO == << [n |-> "ok", ty |-> "i"] >>
 ColsZ == << [n |-> "z", ty |-> "i"], [n |-> "w", ty |-> "s"] >>
-RowsL == {<<IntV(i), IntV(k)>> : i \in {1, 2}, k \in {1, 2, 3}}
-RowsR == {<<IntV(k), StrV(w)>> : k \in {1, 2, 4}, w \in {<<A>>, <<B>>}}
+RowsL == {<<IntV(i), IntV(k), BoolV(i = 1)>> : i \in {1, 2}, k \in {1, 2, 3}}
+RowsR == {<<IntV(k), StrV(w), IntV(10 * k + Len(w))>> : k \in {1, 2, 4}, w \in {<<A>>, <<B, B>>}}
+RowsO == {<<IntV(k)>> : k \in {1, 2, 3}}
 RowsZ == {<<IntV(z), StrV(w)>> : z \in {1, 2}, w \in {<<A>>, <<B>>}}
-Dbs6 == {[l |-> [cols |-> ColsL, rows |-> rl], r |-> [cols |-> ColsR, rows |-> rr], z |-> [cols |-> ColsZ, rows |-> rz]] :
-            rl \in SeqsUpTo(RowsL, 2), rr \in SeqsUpTo(RowsR, 2), rz \in {<<>>, <<<<IntV(1), StrV(<<A>>)>>>>, <<<<IntV(2), StrV(<<B>>)>>, <<IntV(1), StrV(<<A>>)>>>>}}
+Dbs6 == {[l |-> [cols |-> ColsL, rows |-> rl], r |-> [cols |-> ColsR, rows |-> rr], z |-> [cols |-> ColsZ, rows |-> rz], o |-> [cols |-> ColsO, rows |-> ro]] :
+            rl \in SeqsUpTo(RowsL, 2), rr \in SeqsUpTo(RowsR, 2),
+            rz \in {<<>>, <<<<IntV(1), StrV(<<A>>)>>>>, <<<<IntV(2), StrV(<<B, B>>)>>, <<IntV(1), StrV(<<A>>)>>>>},
+            ro \in {<<>>, <<<<IntV(2)>>, <<IntV(3)>>>>, <<<<IntV(1)>>, <<IntV(1)>>, <<IntV(3)>>>>}}
 JTs == {"inner", "left", "right"}
 OnLR == { << <<Cmp(Col("l", "k"), "=", Col("r", "k"))>> >>,
           << <<Cmp(Col("l", "k"), "=", Col("r", "k")), Cmp(Col("l", "id"), "<", Lit(IntV(2)))>> >>,
           << <<Cmp(Col("l", "id"), "<=", Col("r", "k"))>> >>,
           << <<Cmp(Col("l", "k"), "=", Col("r", "k"))>>, <<Cmp(Col("", "id"), "=", Lit(IntV(2)))>> >> }
 OnZ == { << <<Cmp(Col("r", "w"), "=", Col("z", "w"))>> >>, << <<Cmp(Col("l", "id"), "=", Col("", "z"))>> >> }
+OnLO == { << <<Cmp(Col("l", "k"), "<=", Col("o", "ok"))>> >>, << <<Cmp(Col("", "k"), "=", Col("", "ok"))>> >> }
 Froms6 == {<<From1("l", ""), [tbl |-> "r", alias |-> "", jt |-> jt, on |-> on]>> : jt \in JTs, on \in OnLR}
+          \cup {<<From1("l", ""), [tbl |-> "o", alias |-> "", jt |-> jt, on |-> on]>> : jt \in JTs, on \in OnLO}
+          \cup {<<From1("o", ""), [tbl |-> "l", alias |-> "", jt |-> jt, on |-> on]>> : jt \in JTs, on \in OnLO}
           \cup {<<From1("l", ""), [tbl |-> "r", alias |-> "", jt |-> j1, on |-> on], [tbl |-> "z", alias |-> "", jt |-> j2, on |-> on2]>> :
                    j1 \in JTs, j2 \in JTs, on \in {<< <<Cmp(Col("l", "k"), "=", Col("r", "k"))>> >>}, on2 \in OnZ}
 \* aliases: the alias replaces the table name; the same table twice under two aliases
 FromsAlias6 == {<<From1("l", "x"), [tbl |-> "l", alias |-> "y", jt |-> jt, on |-> << <<Cmp(Col("x", "k"), op, Col("y", "id"))>> >>]>> : jt \in JTs, op \in {"=", "<"}}
                \cup {<<From1("l", "x"), [tbl |-> "r", alias |-> "", jt |-> jt, on |-> << <<Cmp(Col("x", "k"), "=", Col("r", "k"))>> >>]>> : jt \in JTs}
 Lists6 == {<<Star>>, <<ColItem("l", "id", ""), ColItem("r", "w", "")>>, <<ColItem("", "id", ""), ColItem("r", "k", "rk")>>,
+           <<ColItem("", "ok", ""), ColItem("l", "x", ""), ColItem("", "id", "")>>, <<ColItem("r", "y", ""), ColItem("", "x", ""), ColItem("z", "z", "")>>,
            <<ColItem("", "k", "")>>,                \* ambiguous over l and r: must be refused
            <<ColItem("", "w", ""), ColItem("l", "k", "")>>}   \* ambiguous only when z is joined too
 ListsAlias6 == {<<Star>>, <<ColItem("x", "id", ""), ColItem("y", "k", "")>>, <<ColItem("x", "k", "a"), ColItem("x", "id", "")>>,
@@ -82,13 +92,16 @@ ListsAlias6 == {<<Star>>, <<ColItem("x", "id", ""), ColItem("y", "k", "")>>, <<C
 Wheres6 == {<<>>, << <<Cmp(Col("l", "id"), "=", Lit(IntV(1)))>> >>, << <<Cmp(Col("", "id"), ">", Lit(IntV(1)))>> >>}
 
 \* ------------------------------------------------------------------ C07
-Cols7 == << [n |-> "p", ty |-> "i"], [n |-> "q", ty |-> "i"], [n |-> "m", ty |-> "i"], [n |-> "n", ty |-> "i"] >>
+Cols7 == << [n |-> "p", ty |-> "i"], [n |-> "q", ty |-> "i"], [n |-> "m", ty |-> "i"], [n |-> "n", ty |-> "i"], [n |-> "u", ty |-> "s"], [n |-> "v", ty |-> "s"] >>
+SP == 32
+\* string grouping values that collide when printed side by side: ("a b", "c") vs ("a", "b c")
+UV == {<<StrV(<<A, SP, B>>), StrV(<<99>>)>>, <<StrV(<<A>>), StrV(<<B, SP, 99>>)>>}
 \* grouping values that collide when printed and concatenated: (1,23) vs (12,3); measures with NULLs
-Rows7 == {<<IntV(p[1]), IntV(p[2]), IntV(m), n>> : p \in {<<1, 23>>, <<12, 3>>, <<1, 2>>}, m \in {0, 1, 2, 101}, n \in {Null, IntV(3)}}
+Rows7 == {<<IntV(p[1]), IntV(p[2]), IntV(m), n, uv[1], uv[2]>> : p \in {<<1, 23>>, <<12, 3>>, <<1, 2>>}, m \in {0, 1, 2, 101}, n \in {Null, IntV(3)}, uv \in UV}
 Tables7 == {[cols |-> Cols7, rows |-> r] : r \in SeqsUpTo(Rows7, 2)}
-           \cup {[cols |-> Cols7, rows |-> <<r1, r2, r3>>] : r1 \in Rows7, r2 \in {<<IntV(1), IntV(23), IntV(0), Null>>, <<IntV(12), IntV(3), IntV(1), IntV(3)>>},
+           \cup {[cols |-> Cols7, rows |-> <<r1, r2 \o uv, r3 \o uv>>] : r1 \in Rows7, uv \in UV, r2 \in {<<IntV(1), IntV(23), IntV(0), Null>>, <<IntV(12), IntV(3), IntV(1), IntV(3)>>},
                      r3 \in {<<IntV(1), IntV(23), IntV(1), IntV(3)>>, <<IntV(1), IntV(2), IntV(0), Null>>}}
-           \cup {[cols |-> Cols7, rows |-> [i \in 1..4 |-> <<IntV(1), IntV(2), IntV(m[i]), Null>>]] : m \in {<<1, 0, 0, 0>>, <<0, 0, 0, 1>>, <<2, 1, 1, 1>>, <<0, 1, 0, 1>>, <<101, 0, 0, 2>>}}
+           \cup {[cols |-> Cols7, rows |-> [i \in 1..4 |-> <<IntV(1), IntV(2), IntV(m[i]), Null, StrV(<<A>>), StrV(<<B>>)>>]] : m \in {<<1, 0, 0, 0>>, <<0, 0, 0, 1>>, <<2, 1, 1, 1>>, <<0, 1, 0, 1>>, <<101, 0, 0, 2>>}}
 Agg(k, c) == Item(k, Ref("", c), NoCmp, "")
 ListGroups7 ==
   {[list |-> <<Agg("count", "")>>, group |-> <<>>], [list |-> <<Agg("avg", "m"), Agg("countcol", "n")>>, group |-> <<>>],
@@ -100,7 +113,17 @@ ListGroups7 ==
    [list |-> <<ColItem("t7", "q", ""), Agg("avg", "m")>>, group |-> <<Ref("t7", "q")>>],               \* qualified in both
    [list |-> <<ColItem("", "p", ""), ColItem("", "q", ""), Agg("count", ""), Agg("avg", "m")>>, group |-> <<Ref("", "p"), Ref("", "q")>>],
    [list |-> <<Agg("count", ""), ColItem("", "q", "b"), ColItem("", "p", "a")>>, group |-> <<Ref("", "a"), Ref("", "b")>>],
-   [list |-> <<ColItem("", "q", ""), Agg("countcol", "n"), ColItem("", "p", "")>>, group |-> <<Ref("", "q"), Ref("", "p")>>]}
+   [list |-> <<ColItem("", "q", ""), Agg("countcol", "n"), ColItem("", "p", "")>>, group |-> <<Ref("", "q"), Ref("", "p")>>],
+   [list |-> <<ColItem("", "u", ""), ColItem("", "v", ""), Agg("count", ""), Agg("avg", "m")>>, group |-> <<Ref("", "u"), Ref("", "v")>>],
+   [list |-> <<Agg("count", ""), ColItem("", "v", "b"), ColItem("", "u", "")>>, group |-> <<Ref("", "u"), Ref("", "b")>>],
+   [list |-> <<ColItem("", "u", ""), ColItem("", "p", ""), Agg("countcol", "n")>>, group |-> <<Ref("", "u"), Ref("", "p")>>]}
+\* aggregates on top of a join: the same table under two aliases, two AVGs over equally named columns
+QAgg(k, qq, c) == Item(k, Ref(qq, c), NoCmp, "")
+FromSelf7 == <<From1("t7", "x"), [tbl |-> "t7", alias |-> "y", jt |-> "inner", on |-> << <<Cmp(Col("x", "p"), "=", Col("y", "p"))>> >>]>>
+JoinListGroups7 ==
+  {[list |-> <<ColItem("x", "p", ""), Agg("count", ""), QAgg("avg", "x", "m"), QAgg("avg", "y", "m")>>, group |-> <<Ref("x", "p")>>],
+   [list |-> <<QAgg("avg", "y", "m"), QAgg("avg", "x", "m")>>, group |-> <<>>],
+   [list |-> <<ColItem("y", "q", "g"), QAgg("countcol", "x", "n"), QAgg("avg", "x", "q")>>, group |-> <<Ref("", "g")>>]}
 Wheres7 == {<<>>, << <<Cmp(Col("", "m"), "<", Lit(IntV(100)))>> >>, << <<Cmp(Col("", "p"), "=", Lit(IntV(1)))>>, <<Cmp(Col("", "q"), "=", Lit(IntV(3)))>> >>}
 
 Out(name, S) == PrintT(<<"SCN", ToJson([set |-> name, elems |-> SetToSeq(S)])>>)
@@ -108,6 +131,7 @@ ASSUME /\ Out("tables5", Tables5) /\ Out("wheres5", Wheres5) /\ Out("listorders5
        /\ Out("dbs6", Dbs6) /\ Out("froms6", Froms6) /\ Out("fromsalias6", FromsAlias6) /\ Out("lists6", Lists6)
        /\ Out("listsalias6", ListsAlias6) /\ Out("wheres6", Wheres6)
        /\ Out("tables7", Tables7) /\ Out("listgroups7", ListGroups7) /\ Out("wheres7", Wheres7)
+       /\ Out("joinlistgroups7", JoinListGroups7) /\ Out("fromself7", {FromSelf7})
 Init == x = 0
 Next == x' = x
 =============================================================================
